@@ -185,7 +185,7 @@ func init() {
 				info.Work = &w
 				if mw != nil && (in.MaxMinimised == 0 || minimised < in.MaxMinimised) {
 					minimised++
-					mc, mo, runs := Minimise(c, info.Class, in.Minimise)
+					mc, _, runs := Minimise(c, info.Class, in.Minimise)
 					// the records of the minimised case, as run number `minimised`
 					mo2 := RunCase(minimised, mc)
 					info.MinRun = minimised
@@ -194,7 +194,6 @@ func init() {
 						return err
 					}
 					info.MinCase, info.MinSymptoms, info.MinRuns = &mc, mo2.Symptoms, runs
-					_ = mo
 					info.Features = Features(&mc, info.Class, &mo2)
 				} else {
 					info.Features = Features(&c, info.Class, &out)
